@@ -9,6 +9,20 @@ from BPTK_Py import sd_functions as sd
 def grid(start, dt, n):
     return [float(Decimal(str(start)) + i * Decimal(str(dt))) for i in range(n + 1)]
 
+def run_labels(case):
+    """the label generator alone, on a much larger lattice (cheap): exactly the decimal grid, first to last point"""
+    start, dt, n = case
+    g = grid(start, dt, n)
+    tr = timerange(start, g[-1], dt, exclusive=False)
+    if tr != g:
+        k = next((i for i, (a, b) in enumerate(zip(tr, g)) if a != b), min(len(tr), len(g)))
+        return "timerange(%r,%r,%r) has %d labels, the grid has %d; first difference at index %d: %r vs %r" % (
+            start, g[-1], dt, len(tr), len(g), k, tr[k:k + 3], g[k:k + 3])
+    tr2 = timerange(start, g[-1], dt)        # exclusive: everything but the stop time
+    if tr2 != g[:-1]:
+        return "timerange(%r,%r,%r, exclusive) = ...%r, expected ...%r" % (start, g[-1], dt, tr2[-3:], g[:-1][-3:])
+    return None
+
 def run(case):
     start, dt, n = case
     g = grid(start, dt, n)
@@ -78,8 +92,13 @@ def run(case):
             if [float(x) for x in df2[df2.columns[0]]] != g2:
                 return "scenario with run specs (%r,%r,%r): time converter reports %r at labels %r" % (start2, g2[-1], dt2, [float(x) for x in df2[df2.columns[0]]][:8], g2[:8])
         b.begin_session(scenarios=["base"], scenario_managers=["sm"], equations=["s"], starttime=start, dt=dt)
-        for _ in range(n + 3):
-            b.run_step()
+        for k in range(n + 3):
+            res = b.run_step()
+            if k <= n:
+                # every step reports exactly one entry, labelled with its own grid value
+                tt = [float(x) for x in res["sm"]["base"]["s"].keys()]
+                if tt != [g[k]]:
+                    return "session step %d reports the times %r, expected [%r]" % (k, tt, g[k])
         keys = [float(k) for k in b.session_results().keys()]
         if keys != g:
             return "session labels %r, expected %r" % (keys[:12], g[:12])
@@ -87,7 +106,7 @@ def run(case):
         b.destroy()
     return None
 
-case = (2.5, 0.5, 8)
+case = (-0.3, 0.1, 8)
 bad = run(case)
 print("case (start, dt, steps):", case)
 print("FAIL: " + bad if bad else "PASS")
